@@ -346,7 +346,7 @@ MANIFEST = {
             "detectors watch the connection gffutils itself opened (authorizer action codes, first keyword of every traced "
             "statement, total_changes / open transaction); afterwards the file is re-dumped with plain sqlite3 and compared. "
             "For clobbering, create_db is pointed at an existing database with and without force and the outcome compared "
-            "with the old content / with a solitary import of the new input.",
+            "with the old content / with a solitary import of the new input. Old databases also come without ANALYZE statistics, as crashed-writer leftovers in WAL mode (frames only in the -wal file) and locked by another connection; read sequences include GTF databases built without inference and look-ups of ids known only as relation parents, levels 3/4 and four-tier hierarchies.",
     "note": "Trusted: sqlite3's authorizer and trace callbacks. Methods not listed in the statement are still exercised when "
             "they are read-style (create_splice_sites, iter_by_parent_childs, schema).",
 }
